@@ -897,6 +897,31 @@ impl SA {
                         });
                     }
                 }
+                Step::SeqAsk2 { t1, b1, t2, b2 } => {
+                    if let (Some(h1), Some(h2)) = (sh.peer(*t1), sh.peer(*t2)) {
+                        sh.model_add(*t1, 1, "tmp+");
+                        sh.model_add(*t2, 1, "tmp+");
+                        let _tmp1 = TmpRef { sh: &sh, actor: *t1 };
+                        let _tmp2 = TmpRef { sh: &sh, actor: *t2 };
+                        // the futures exist from here on; each call is logged when it is awaited
+                        let f1: futures::future::BoxFuture<'_, rsactor::Result<u64>> = match &h1 {
+                            H::D(r) => Box::pin(r.ask(MU(b1.clone()))),
+                            H::E(e) => e.ask_u().ask(MU(b1.clone())),
+                        };
+                        let f2: futures::future::BoxFuture<'_, rsactor::Result<u64>> = match &h2 {
+                            H::D(r) => Box::pin(r.ask(MU(b2.clone()))),
+                            H::E(e) => e.ask_u().ask(MU(b2.clone())),
+                        };
+                        let g = CallGuard::start(&sh, *t1, OpKind::Ask, 'U', b1.uid, 0, ctx);
+                        let r1 = f1.await;
+                        g.end(to_res(r1, Rep::U));
+                        let g = CallGuard::start(&sh, *t2, OpKind::Ask, 'U', b2.uid, 0, ctx);
+                        let r2 = f2.await;
+                        g.end(to_res(r2, Rep::U));
+                        drop(h1);
+                        drop(h2);
+                    }
+                }
                 Step::JoinAsk { t1, b1, t2, b2 } => {
                     if let (Some(h1), Some(h2)) = (sh.peer(*t1), sh.peer(*t2)) {
                         sh.model_add(*t1, 1, "tmp+");
